@@ -98,6 +98,8 @@ def write_evidence(prop, tier, seed, sel, results, verdict, info, wall, known):
             "checker_cmd": info.get("kani_cmd", ""),
             "trusted_base": ["Kani 0.68.0 (MIR -> goto translation)", "CBMC 6.11.0 + CaDiCaL", "rustc front end",
                              "pnet / siphasher / lazy_static crates compiled from source into the model (not stubbed unless listed)"],
+            "engines": sorted(set(["kani/cbmc"] + (["z3 (QF_BV over the dumped matcher tables, lib/c10_z3.py)"] if any(h.name == "c10_z3_tables" for h in sel) else [])
+                                  + (["z3 (QF_BV encoding of the 401 response built by a source-level translator, lib/c13_z3.py; native validation)"] if any(h.name == "c13_z3_response_text" for h in sel) else []))),
             "harnesses": per,
             "harnesses_passed": len(verdict.passed),
             "harnesses_nonvacuous": nontrivial,
